@@ -127,6 +127,40 @@ def construction_sites(chk: Check, repo: Repo) -> None:
     chk.ob("array-datapoints-declare-a-positive-length", "xknx/dpt", not bad and k > 100, f"{k} datapoint types with an array payload, payload_length < 1: {bad}", key="dpt-lengths")
 
 
+def scaling_rejects_out_of_range(chk: Check, repo: Repo) -> None:
+    """RemoteValueScaling: a value more than two wire steps outside the configured range maps to a raw number outside
+    0..255, which the payload constructor refuses (interval abstract interpretation of _calc_to_knx per range cell)."""
+    from ..intervals import INF, IntervalEval, Iv, NotInFragment
+    cls = repo.cls("xknx.remote_value.remote_value_scaling", "RemoteValueScaling")
+    f = cls.methods["_calc_to_knx"]
+    chk.unit(f)
+    names = [a.arg for a in f.node.args.args]
+    tk = cls.methods["to_knx"]
+    wraps = [c for c in calls(tk.node) if call_name(c) == "DPTArray" and len(c.args) == 1 and isinstance(c.args[0], ast.Name)]
+    chk.ob("scaling-result-goes-through-the-checked-constructor", tk.site(), len(wraps) == 1, "RemoteValueScaling.to_knx hands the computed number to DPTArray (which refuses non-octets)", key="scaling|ctor")
+    for a, b in ((0, 100), (100, 0), (0, 1000), (20, 80), (0, 255)):
+        lo, hi = min(a, b), max(a, b)
+        margin = 2 * (hi - lo) / 255
+        for side, iv in (("above", Iv(hi + margin, INF)), ("below", Iv(-INF, lo - margin))):
+            ie = IntervalEval(repo, f, cls)
+            try:
+                outs = ie.run({names[0]: Iv(a, a, True), names[1]: Iv(b, b, True), names[2]: iv})
+            except NotInFragment as u:
+                raise AnalysisError(f"_calc_to_knx outside the interval fragment: {u}") from u
+            ok = bool(outs)
+            det = []
+            for o in outs:
+                if o.kind != "return" or not isinstance(o.detail, Iv):
+                    ok = False
+                    det.append(f"{o.kind} {o.detail!r}")
+                    continue
+                r = o.detail
+                disjoint = r.lo > 255 or r.hi < 0
+                ok = ok and disjoint
+                det.append(f"raw in {r!r}")
+            chk.ob("scaling-refuses-values-beyond-the-range", f.site(), ok, f"range {a}..{b}, value {side} by more than two wire steps ({iv!r}): {'; '.join(det)}" + ("" if ok else " — overlaps 0..255: an out-of-range value is queued instead of refused"), key=f"scaling|{a}..{b}|{side}")
+
+
 def ordering(chk: Check, repo: Repo) -> None:
     cases = [("xknx.remote_value.remote_value", "RemoteValue.set", "self.to_knx", "self.send_raw"), ("xknx.remote_value.remote_value", "RemoteValue.respond", "self.to_knx", "self.send_raw"),
              ("xknx.tools.group_communication", "group_value_write", "_parse_payload", "xknx.telegrams.put_nowait"), ("xknx.tools.group_communication", "group_value_response", "_parse_payload", "xknx.telegrams.put_nowait")]
@@ -197,6 +231,7 @@ def run(chk: Check, repo: Repo) -> None:
     chk.floor("remote value encoders analysed", n, 15)
     pp = repo.func("xknx.tools.group_communication", "_parse_payload")
     check_entry(chk, mr, pp, ("ConversionError",), label="_parse_payload", rule="value-rejected-with-conversion-error", reviewed=builder_reviewed)
+    scaling_rejects_out_of_range(chk, repo)
     ordering(chk, repo)
     chk.rule("constructor must-facts + ownership census for the payload invariants; E1 may-raise analysis of the payload serialiser and of every payload builder on the send paths; construction-site census; dominance of the build over the queueing call")
     chk.assume("type errors in well-typed callers are mypy's domain (the octet test applies to integer elements)")
